@@ -1,6 +1,10 @@
 package driver
 
-import "time"
+import (
+	"os"
+	"path/filepath"
+	"time"
+)
 
 var realSoy = []string{"all library packages of robfig/soy (ast data errortypes parse parsepasses soyhtml soyjs soymsg soymsg/pomsg template and the root package), instrumented copy of the current working tree"}
 
@@ -117,6 +121,136 @@ func init() {
 				}
 				return nil
 			},
+		}
+	})
+}
+
+func init() {
+	extraSpecs = append(extraSpecs, func(m map[string]*Spec) {
+		m["C09"] = &Spec{
+			ID: "C09", Level: "exploration", Main: "race", Variants: []string{"race"}, Block: 3,
+			QuickWall: 4 * time.Minute, ThoroughWall: 20 * time.Minute, BlockWall: 15 * time.Minute,
+			Nontrivial: "interleaving", Recheck: 12,
+			Rule: "each run compiles a seeded generated bundle (set-up in the harness task, as a server does at start-up), then 2-6 client tasks each perform 1-4 operations on the SHARED Tofu, registry, data maps, $ij maps and message bundle: render (same or different templates, with/without catalogue), " +
+				"soyjs.Write (ES5/ES6), compilation of an independent bundle, parse.SoyFile. One task runs at a time; the next task is drawn from the run's seeded strategy (uniform random with quantum 1/3/10/50/500 yields, PCT with 1-3 priority change points, coarse run-to-completion in random order, round-robin q=1); " +
+				"task handoffs are hidden from ThreadSanitizer (runtime.RaceDisable around the baton channel operations, //go:norace simulator), so the serial, replayable execution is still judged concurrent. Swarm: 0-2 obligatory directives, soyhtml.Logger set or not, catalogue kind. " +
+				"Oracles: (1) any race-detector report; (2) every operation's bytes and error presence equal the same operation run alone on a fresh bundle; (3) no panic, deadlock or budget exhaustion. A run is distinct and non-trivial by its interleaving hash (sequence of (task, site) at switch points) combined with the bundle skeleton; every run has at least two client tasks.",
+			Assumptions: []string{
+				"ThreadSanitizer judges the tasks concurrent because the only happens-before edges it sees are the program's own (goroutine creation by the caller, soy's channels, the harness's WaitGroup at the join)",
+				"the harness shares only what a server shares: the compiled bundle, read-only data/$ij maps and a stateless message bundle; per-operation writers and results are private",
+				"no fault function with a shared counter is installed (it would add happens-before edges soy does not have)",
+			},
+			Components: map[string][]string{"real": append(realSoy, "ThreadSanitizer (go build -race)"), "stub": {"soymsg.Bundle (stateless)", "io.Writer (bytes.Buffer per operation)"}, "replaced": {"Go scheduler's goroutine choice", "channel blocking (enabledness model)"}},
+			WorkerEnv: func(e *Env) []string {
+				os.MkdirAll(filepath.Join(e.Scratch, "race"), 0o755)
+				return []string{"GORACE=halt_on_error=0 exitcode=0 log_path=" + filepath.Join(e.Scratch, "race", "r")}
+			},
+			ExtraFn:       func(e *Env) []string { return []string{"-racelog", filepath.Join(e.Scratch, "race", "r")} },
+			RequireProbes: []string{"op_render", "op_js", "op_compile", "op_parse", "op_with_catalogue", "runs_with_obligatory_directives", "runs_with_logger", "sched_random", "sched_pct", "sched_coarse", "sched_rr"},
+		}
+	})
+}
+
+// nativeCrossCheck runs the plain, un-instrumented build over the first units in several fresh
+// processes under Go's native map iteration order and compares its observation vectors with the
+// canonical reference of the instrumented build (DESIGN.md 4, C13 step 4).
+func nativeCrossCheck(passes, maxUnits int) func(e *Env, s *Spec, agg *Agg, cov map[string]interface{}) error {
+	return func(e *Env, s *Spec, agg *Agg, cov map[string]interface{}) error {
+		n := maxUnits
+		if agg.Units < n {
+			n = agg.Units
+		}
+		if n == 0 {
+			return nil
+		}
+		nat := newAgg()
+		for p := 0; p < passes; p++ {
+			a, err := e.Fan(FanOpts{Variant: "plain", Prop: s.ID, Units: Seq(n), Block: 2, BlockWall: s.BlockWall, Extra: append(s.extra(e), "-extra", "native")})
+			if err != nil {
+				return err
+			}
+			for k, vs := range a.Obs {
+				if nat.Obs[k] == nil {
+					nat.Obs[k] = map[string]int{}
+				}
+				for v, c := range vs {
+					nat.Obs[k][v] += c
+				}
+			}
+			agg.Evals += a.Evals
+			agg.Fails = append(agg.Fails, a.Fails...)
+			agg.Counters["native_units"] += int64(a.Units)
+		}
+		compared, disagree, opaque := 0, 0, 0
+		for k, vs := range nat.Obs {
+			ref := agg.Obs[k]
+			if ref == nil {
+				continue
+			}
+			compared++
+			if len(vs) > 1 {
+				disagree++ // native executions disagree with each other: a literally observed violation
+				continue
+			}
+			for v := range vs {
+				if ref[v] == 0 {
+					opaque++
+				}
+			}
+		}
+		cov["native_cross_check"] = map[string]interface{}{"passes": passes, "units": n, "vectors_compared": compared,
+			"native_executions_disagreeing_across_processes": disagree, "native_differs_from_instrumented_reference": opaque}
+		if disagree > 0 && len(agg.Fails) == 0 {
+			// reproduce through the in-process repetition of the native worker, which carries a replay case
+			return troublef("native executions of %d case(s) disagree across processes but no in-process repetition and no seam search reproduced it: an un-modelled order source (see DESIGN.md C13 step 4)", disagree)
+		}
+		if opaque > 0 && disagree == 0 && len(agg.Fails) == 0 {
+			return troublef("transparency gate: %d native observation vector(s) differ from the canonical reference of the instrumented build although native executions agree with each other", opaque)
+		}
+		return nil
+	}
+}
+
+func init() {
+	extraSpecs = append(extraSpecs, func(m map[string]*Spec) {
+		m["C13"] = &Spec{
+			ID: "C13", Level: "exploration", Main: "inst", Variants: []string{"inst", "plain"}, Block: 2,
+			QuickWall: 4 * time.Minute, ThoroughWall: 20 * time.Minute, BlockWall: 15 * time.Minute,
+			Nontrivial: "order_assignment",
+			Rule: "for each seeded generated bundle (emphasis: ES6 imports of many templates/functions/directives, map literals in printed, error-producing and placeholder positions, colliding placeholder names, a quarter of the cases with a call that omits a required param so that the compile error prints the call) " +
+				"the observation vector of one compilation is: accept/reject and error text; id, placeholder names and placeholder string of every msg; rendered output of up to 4 entries; soyjs.Write bytes per file x {ES5, ES6} x {no catalogue, catalogue}. " +
+				"Reference: every `range` over a map (and reflect MapKeys) held at its canonical order through the map-order seam. Then: 6 seeded runs with independent order decisions per range execution (perturbation probability 1, 0.3, 0.05), two runs per reached range site perturbing that site alone " +
+				"(rotation 1 and n-1), and every permutation of file insertion order (up to 8). Orders for single-bucket maps of <= 8 keys are rotations of the slot order (what the Go runtime produces), seeded permutations otherwise. Oracle: equal vectors (for other file orders: rejected stays rejected, text may differ). " +
+				"Finally the plain build observes the same cases in fresh OS processes under native order; its vectors must equal the reference. A run is distinct by its (site, execution, decision) assignment combined with the bundle skeleton, non-trivial if at least one decision is non-canonical.",
+			Assumptions: []string{
+				"the only sources of nondeterminism between equal sources and equal results are map iteration order and file insertion order (no clock, no randomness: randomInt is excluded); the native cross-check exists to catch an order source the seam does not model",
+				"render error text is not compared (it embeds stack traces); compile error text is",
+			},
+			Components:    map[string][]string{"real": append(realSoy, "unmodified build in fresh processes for the native cross-check"), "stub": {"soymsg.Bundle"}, "replaced": {"Go's random start offset of map iteration (seeded rotation / permutation at every range-over-map site and reflect.Value.MapKeys)"}},
+			Post:          nativeCrossCheck(3, 12),
+			RequireProbes: []string{"runs_random_plan", "runs_single_site", "runs_file_order", "map_order_decisions_perturbed", "messages_observed", "js_files_observed", "cases_rejected_by_compiler", "native_units"},
+		}
+	})
+}
+
+func init() {
+	extraSpecs = append(extraSpecs, func(m map[string]*Spec) {
+		m["C10"] = &Spec{
+			ID: "C10", Level: "exploration", Main: "inst", Variants: []string{"inst", "plain"}, Block: 3,
+			QuickWall: 4 * time.Minute, ThoroughWall: 20 * time.Minute, BlockWall: 15 * time.Minute,
+			Nontrivial: "order_assignment",
+			Rule: "seeded generated messages built from a vocabulary chosen for the placeholder naming pass: repeated expressions, distinct expressions with one base name ($x, $a.x, $b.x), base names that look like suffixed names ($x_1, $a.x_1, $x_2), expressions without a base name, " +
+				"global references, map literals inside placeholders, html tags (two different <a> tags, a tag named a_1), plurals with placeholders in several cases, meanings and descriptions. For every message: (a) the id, placeholder names and placeholder string under every single-site perturbation " +
+				"(rotations 1..4) of each reached range-over-map site of the naming pass and under 4 seeded all-site perturbations must equal the canonical observation; (b) compiled after 1..6 other bundles in the same process; (c) the plain build in fresh OS processes under native order; " +
+				"(d) the same message surrounded by other messages, in another template/namespace/file, with another description, twice in one template -> same id and names; (e) changing the text, the meaning, adding a placeholder, adding a plural case -> a different id. " +
+				"A run is distinct by its (site, execution, decision) assignment combined with the message source, non-trivial if at least one decision is non-canonical.",
+			Assumptions: []string{
+				"decides the stability, independence and sensitivity clauses of C10 only: conformance of the id numbers to Google's fingerprint algorithm and of the names to the official naming rules is a pure function with an external reference and is NOT decided here (the repository's unit tests pin it on fixed vectors)",
+				"an id collision between two different placeholder strings (63-bit fingerprint) is treated as impossible in the sensitivity clause",
+			},
+			Components:    map[string][]string{"real": append(realSoy, "unmodified build in fresh processes for the cross-process clause"), "stub": {}, "replaced": {"Go's map iteration start offset at the range sites of soymsg/placeholder.go and ast/node.go"}},
+			Post:          nativeCrossCheck(3, 20),
+			RequireProbes: []string{"check_maporder", "check_history", "check_context", "check_sensitivity", "map_order_decisions_perturbed", "messages_with_suffixed_placeholder_names", "native_units"},
 		}
 	})
 }
